@@ -421,6 +421,10 @@ def _check_who_may_create(repo, rep):
 
 _S = "svg"
 VARIANTS = [
+    Variant("remove_overlaps swallows the engine's failure and hands back the evenodd path",
+            [Edit("svg_types", "SVGPath.remove_overlaps", "        cmds = svg_pathops.remove_overlaps(self.as_cmd_seq(), fill_rule=self.fill_rule)\n",
+                  "        try:\n            cmds = svg_pathops.remove_overlaps(self.as_cmd_seq(), fill_rule=self.fill_rule)\n        except svg_pathops.pathops.PathOpsError:\n            return self\n")],
+            [("R-ORDER.stages", "topicosvg")]),
     Variant("allowlist admits use", [Edit(_S, "SVG.checkpicosvg", r'r"^/svg\[0\](/(path|g)\[\d+\])+$"', r'r"^/svg\[0\](/(path|g|use)\[\d+\])+$"')],
             [("R-REGEX.allowlist", "checkpicosvg")]),
     Variant("gate result ignored", [Edit(_S, "SVG.topicosvg", "        if violations:\n            raise ValueError(\"Unable to convert to picosvg: \" + \",\".join(violations))\n", "")],
